@@ -221,6 +221,24 @@ pub fn generate_c13(rng: &mut Rng, thorough: bool) -> Vec<String> {
             let ins = rand_instant(rng, &ts);
             v.push(format!("tz_wall {z} {ins}"));
         }
+        if let Some(zz) = z.strip_prefix("z:") {
+            // the midnights around the local images of each transition: a gap or an overlap may straddle one
+            let sz = SynZone::parse(zz);
+            let mut prev = sz.initial;
+            for (t, off) in sz.trans.iter() {
+                for loc in [*t as i128 + prev as i128, *t as i128 + *off as i128] {
+                    let d = loc.div_euclid(86_400);
+                    for dd in [d, d + 1] {
+                        if dd.abs() < 100_000_000 && rng.chance(1, 2) {
+                            let (y, m, day) = ymd(dd);
+                            v.push(format!("tz_pdat {z} {y} {m} {day} 0 0 0 0 0 0"));
+                            v.push(format!("tz_sod {z} {y} {m} {day}"));
+                        }
+                    }
+                }
+                prev = *off;
+            }
+        }
         for _ in 0..3 {
             let (d, t) = rand_local(rng, &z, &ts);
             let (y, m, dd) = ymd(d);
@@ -228,6 +246,9 @@ pub fn generate_c13(rng: &mut Rng, thorough: bool) -> Vec<String> {
                 v.push(format!("tz_inst {z} {y} {m} {dd} {} {dz}", tod(t)));
             }
             v.push(format!("tz_sod {z} {y} {m} {dd}"));
+            // PlainDate -> ZonedDateTime with an explicit time of day (midnight given explicitly is not "no time")
+            let given = match rng.below(4) { 0 => 0, 1 => t, 2 => 1, _ => DAY - 1 };
+            v.push(format!("tz_pdat {z} {y} {m} {dd} {}", tod(given)));
             // partial record / string route with an explicit offset or Z
             let off: String = match rng.below(6) {
                 0 => "-".into(),
@@ -406,6 +427,14 @@ pub fn eval(t: &[&str]) -> Option<String> {
             let (tz, p) = zone_of(t[1]);
             let r = PlainDate::try_new(i(t[2]) as i32, i(t[3]) as u8, i(t[4]) as u8, Calendar::default())
                 .and_then(|d| d.to_zoned_date_time_with_provider(tz.clone(), None, &p));
+            Some(render(r, |z| z.epoch_nanoseconds().as_i128().to_string()))
+        }
+        "tz_pdat" => {
+            let (tz, p) = zone_of(t[1]);
+            let r = PlainDate::try_new(i(t[2]) as i32, i(t[3]) as u8, i(t[4]) as u8, Calendar::default()).and_then(|d| {
+                let time = temporal_rs::PlainTime::try_new(i(t[5]) as u8, i(t[6]) as u8, i(t[7]) as u8, i(t[8]) as u16, i(t[9]) as u16, i(t[10]) as u16)?;
+                d.to_zoned_date_time_with_provider(tz.clone(), Some(time), &p)
+            });
             Some(render(r, |z| z.epoch_nanoseconds().as_i128().to_string()))
         }
         "tz_partial" => {
